@@ -242,7 +242,7 @@ type DB struct {
 	// OnCommitted is called after every successful commit with the new
 	// state.
 	OnCommitted func(s Snapshot)
-	commits    int
+	commits     int
 }
 
 const rootID = 1
